@@ -1,7 +1,7 @@
 (* compile_correct, stage 1: leaves, anchors, single characters, Concat, Alternate, plain Capture, Group. *)
 From Verif Require Import Base.Prelude Model.Tree Model.Spec Model.VM Model.Writer Gen.RunnerGen
   Proofs.SpecProofs Proofs.SpecBoundsProofs Proofs.MaskProofs
-  Proofs.VMU Proofs.VMUOps Proofs.VMUOps2 Proofs.VMUOps3 Proofs.CompileBase Proofs.CompileDefs.
+  Proofs.VMU Proofs.VMUOps Proofs.VMUOps2 Proofs.VMUOps6 Proofs.VMUOps3 Proofs.CompileBase Proofs.CompileDefs.
 From Coq Require Import Relations ZifyBool.
 
 Section CC.
